@@ -212,7 +212,7 @@ class Recorder:
     def call(self, client, op, args, fn, kw=None):
         c = self.sched._me()
         rec = {'client': client, 'op': op, 'args': args, 'kw': kw or {}, 'call': self.sched.now(),
-               'ret': None, 'kind': None, 'result': None}
+               'ret': None, 'kind': None, 'result': None, 't0': self.sched.clock.now_peek(), 't1': None}
         with self.lock:
             self.ops.append(rec)
         if c is not None:
@@ -231,4 +231,5 @@ class Recorder:
             if c is not None:
                 c.in_op = False
         rec['ret'] = self.sched.now()
+        rec['t1'] = self.sched.clock.now_peek()       # every clock read of the call lies in [t0, t1]
         return rec
